@@ -85,12 +85,14 @@ def at(fn, line=None):
 
 class Ctx:
     def __init__(self, facts, tree_hash, tier, facts_rel=None):
-        from inline import inline_new_helpers
+        from normalise import normalise
 
-        # normalisation: new private helpers are spliced into their callers (identity on the pinned tree)
-        facts, self.inlined = inline_new_helpers(facts)
+        # normalisation (identity on the pinned tree): renamed private functions / fields / variants are
+        # re-bound to the pinned names, new private helpers are spliced into their callers
+        facts, self.normalised = normalise(facts)
+        self.inlined = self.normalised["inlined"]
         if facts_rel:
-            facts_rel, _ = inline_new_helpers(facts_rel)
+            facts_rel, _ = normalise(facts_rel)
         self.facts = facts
         self.tree_hash = tree_hash
         self.tier = tier
@@ -189,7 +191,7 @@ def finish(prop, ctx, insts, reports, wall, explanation, not_decided, extra=None
         "rules": reports,
         "functions_analysed": ctx.stats.get("functions"),
         "positive_controls": ctx.stats.get("positive_controls"),
-        "inlined_new_helpers": getattr(ctx, "inlined", []),
+        "normalisation": getattr(ctx, "normalised", {}),
         "tree_hash": ctx.tree_hash,
         "known_findings_matched": matched_known,
         "checker_cmd": "./check %s --tier %s" % (prop, ctx.tier),
